@@ -76,6 +76,50 @@ func init() {
 	})
 }
 
+var c08CallGraphShapes = []string{
+	// a map-typed struct member projected through a pipeline input that is
+	// split over a typed map literal (its merged type would be map<map<int>>)
+	`struct S1(
+    map<int> f2,
+)
+
+stage ST3(
+    in  map<int> xi,
+    out bool special,
+    src comp "/bin/true",
+)
+
+pipeline PL13(
+    in  S1 eta,
+    out bool nu,
+)
+{
+    call ST3(
+        xi = self.eta.f2,
+    )
+
+    return (
+        nu = ST3.special,
+    )
+}
+
+pipeline PL14(
+    out map<bool> o,
+)
+{
+    map call PL13(
+        eta = split {"a": null},
+    )
+
+    return (
+        o = PL13.nu,
+    )
+}
+
+call PL14()
+`,
+}
+
 var posRe = regexp.MustCompile(`[^\s:]+:\d+|line \d+`)
 
 var hostileTokens = []string{
@@ -262,6 +306,10 @@ func init() {
 			gc.AllowNestedDynamic = i%8 >= 4
 			gc.AllowNestedMap = i%8 >= 2
 			add('s', pgen.Generate(c.Seed*7919+int64(i), gc).SingleFile(), "generated")
+		}
+		// shapes that crashed call graph resolution before (kept as fixed inputs)
+		for _, prog := range c08CallGraphShapes {
+			add('s', prog, "generated")
 		}
 		repoCorpus := loadRepoCorpus(c.RepoDir)
 		corpus = append(corpus, repoCorpus...)
